@@ -2,7 +2,7 @@
   List readings of the numpy / scipy array operations that the *vector* kernels of the translator use
   (`harness/common/pykern.py`, third generation): slices `x[1:]`, `x[:-1]`, `x[::-1]`, `x[a:b]`, element reads `x[0]`,
   `x[-1]`, slice stores `x[1:] = y`, `x[:-1] = y`, `x[:a] = 0`, `x[b:] = 0`, `np.zeros_like`, `np.sum`, `np.broadcast_to`,
-  `scipy.integrate.cumulative_trapezoid(y, dx=…)`.  Pointwise arithmetic on arrays is translated to `List.map` /
+  `scipy.integrate.cumulative_trapezoid(y, dx=…)`, element reads `x[k]`, `np.concatenate` (`++`), `np.array([a, …])` (a list).  Pointwise arithmetic on arrays is translated to `List.map` /
   `List.zipWith` directly.  Shape agreement (which numpy checks at run time and refuses otherwise) is a precondition of the
   reading: on lists of unequal length `zipWith` truncates where numpy raises.
   No Mathlib import: linked into the driver.
@@ -78,5 +78,21 @@ def cumtrapz (y d : List α) : List α := cumsumFrom (Lit.dec 0 0 : α) (trapTer
 /-- `cumulative_trapezoid(y, dx=d)` with one scalar segment length -/
 def cumtrapzS (y : List α) (d : α) : List α := cumtrapz y (bcast d (y.length - 1))
 
+/-- pointwise function of three arrays (numpy refuses unequal shapes; the reading truncates) -/
+def zipWith3 {β γ δ ε : Type} (f : β → γ → δ → ε) : List β → List γ → List δ → List ε
+  | a :: as, b :: bs, c :: cs => f a b c :: zipWith3 f as bs cs
+  | _, _, _ => []
+
+/-- `x[k]` for a length-typed index (numpy raises `IndexError` past the end; the reading gives 0 there) -/
+def getAt (x : List α) (k : Nat) : α := x.getD k (Lit.dec 0 0)
+
 end
+
+/-- an uninterpreted four-argument function of the source (a library call), given to the driver as the table of the calls the
+    implementation made: `[a, b, c, d, result, a, b, c, d, result, …]`; bit-exact lookup, `NaN` for a call that was not made -/
+def tableFn4 : List Float → Float → Float → Float → Float → Float
+  | a' :: b' :: c' :: d' :: r :: rest, a, b, c, d =>
+    if a'.toBits == a.toBits && b'.toBits == b.toBits && c'.toBits == c.toBits && d'.toBits == d.toBits then r
+    else tableFn4 rest a b c d
+  | _, _, _, _, _ => 0.0 / 0.0
 end Aeic.Vec
